@@ -37,7 +37,7 @@ PROPS = {
     },
     "C05": {
         "harnesses": [
-            {"pkg": "interpreter", "name": "VH_C05_Opcode", "quick": {"params": {"D": 3, "K": 2, "A": 1, "U": 6, "KM": 1}}, "thorough": {"params": {"D": 4, "K": 3, "A": 1, "U": 8, "KM": 2}}},
+            {"pkg": "interpreter", "name": "VH_C05_Opcode", "quick": {"params": {"D": 3, "K": 2, "A": 1, "U": 6, "KM": 1}}, "thorough": {"params": {"D": 4, "K": 2, "A": 1, "U": 8, "KM": 1}}},
             {"pkg": "interpreter", "name": "VH_C05_Opcode", "quick": {"params": {"D": 2, "K": 1, "BIGTOP": 9, "OPLO": 121, "OPHI": 128, "U": 4}}, "thorough": {"params": {"D": 3, "K": 1, "BIGTOP": 9, "OPLO": 121, "OPHI": 128, "U": 4}}},
             {"pkg": "interpreter", "name": "VH_C05_Opcode", "quick": {"params": {"D": 2, "K": 2, "BIGTOP": 9, "OPLO": 152, "OPHI": 153, "U": 4}}, "thorough": {"params": {"D": 3, "K": 3, "BIGTOP": 10, "OPLO": 152, "OPHI": 153, "U": 4}}},
             {"pkg": "interpreter", "name": "VH_C05_Opcode", "thorough_only": True, "thorough": {"params": {"D": 3, "K": 2, "X": 1, "ALIAS": 1, "U": 6, "KM": 1, "OPLO": 126, "OPHI": 165}}},
